@@ -145,6 +145,8 @@ def build(key, variant, i):
         tim = geti('seg_time') if variant.endswith('time') else None
         env.update(seg_num=num, seg_time=tim, mode=mode, representation=rep, timing=rep._timing)
         return {'env': env, 'call': lambda: tuple(fn(None, mode, rep, rep._timing, num, tim))}
+    if qual == 'MediaRequestBase.generate_media_segment':
+        return build_gms(variant, i, mode, rep, ref, env)
     if qual == 'Representation.generateSegmentList':
         return {'env': env, 'call': lambda: rep.generateSegmentList()}
     if qual == 'Representation.generateSegmentTimeline':
@@ -161,6 +163,62 @@ def build(key, variant, i):
                    dx_periodic_live=True, dx_periodic_vod=True, __unbounded_hi__=max(4, 4 * n + 8))
         return {'env': env, 'call': lambda: rep.generateSegmentTimeline()}
     raise KeyError(qual)
+
+
+def build_gms(variant, i, mode, rep, ref, env):
+    """MediaRequestBase.generate_media_segment extracted from the source text and run with stand-ins for what the
+    contract treats as abstract (fragment loading / encoding, AdaptationSet, DashTiming construction, Flask)."""
+    import io
+    import flask
+    from types import SimpleNamespace as NS
+    kind = variant.split('-')[1]
+    content_type = variant.split('-')[2]
+    with_sidx = not variant.endswith('-nosidx')
+    geti = lambda k: None if i.get(k) is None else int(i[k])
+    num = geti('seg_num') if kind == 'number' else None
+    tim = geti('seg_time') if kind == 'time' else None
+    TF = lambda k: 1000 + 7 * k * k            # an arbitrary stored decode time per fragment
+    state = {}
+    msi = extract_method('dashlive/server/requesthandler/media_requests.py', 'LiveMedia', 'calculate_media_segment_index')
+
+    class Atom(NS):
+        def encode(self, dest):
+            state['encoded'] = NS(sequence_number=self.moof.mfhd.sequence_number,
+                                  tfdt=self.moof.traf.tfdt.base_media_decode_time, has_sidx=hasattr(self, 'sidx'))
+            dest.write(b'x' * 10)
+
+    def load_fragment(media_file, mod, options, parse_samples=False):
+        state['mod'] = mod
+        a = Atom(moof=NS(mfhd=NS(sequence_number=int(i.get('stored_seq', 0))),
+                         traf=NS(tfdt=NS(base_media_decode_time=TF(mod)))))
+        if with_sidx:
+            a.sidx = object()
+        return a
+    app = flask.Flask('replay')
+    me = NS(check_for_synthetic_http_error=lambda *a: None, load_fragment=load_fragment,
+            get_http_range=lambda n: (None, None, 200, {}),
+            calculate_media_segment_index=lambda m, r, t, n_, t_: msi(None, m, r, t, n_, t_))
+    adp = lambda **kw: NS(content_type=kw['content_type'], representations=[], compute_av_values=lambda: None,
+                          set_dash_timing=lambda t: None)
+    fn = extract_method('dashlive/server/requesthandler/media_requests.py', 'MediaRequestBase', 'generate_media_segment', {
+        'flask': flask, 'io': io, 'AdaptationSet': adp, 'DashTiming': lambda now, ref_, options: rep._timing,
+        'UTC': lambda: datetime.timezone.utc, 'EventFactory': NS(create_event_generators=lambda o: []),
+        'content_type_to_mime_type': lambda a, b: 'video/mp4', 'add_allowed_origins': lambda h: None,
+        'mp4': NS(Mp4Atom=object, BoxWithChildren=object), 'models': NS(Stream=object, MediaFile=object),
+        'OptionsContainer': object})
+    media_file = NS(representation=rep, content_type=content_type, track_id=1, name='x', codec_fourcc='avc1')
+    options = NS(mode=mode, segmentTimeline=(kind == 'time'), videoCorruption=None)
+    rep.encrypted = False
+    env.update(seg_num=num, seg_time=tim, TF=TF, mode=mode)
+
+    def call():
+        with app.test_request_context('/x'):
+            r = fn(me, NS(timing_reference=ref), media_file, mode, options, num, tim)
+        return NS(status=r.status_code, data=state.get('encoded'))
+
+    def post_env():
+        return {'served_mod': state.get('mod')}
+    return {'env': env, 'call': call, 'post_env': post_env}
 
 
 def adapt(key, result, env):
